@@ -88,10 +88,11 @@ Fixpoint perm_b (a b : list func) : bool :=
 (* the clauses of the statement for one emit executed after history p, judged on what was observed *)
 Definition emit_clauses (p : list hop) (ev snd : Z) (a : payload) (single : option bool) (o : oobs)
   : list Z :=
-  if negb (silent_ok p) then [] else      (* set_silent inside a silent() block: outside the reading *)
+  (* stage 3: every well-bracketed history is judged, with the history-defined [silenced_all]
+     (= [silenced] when set_silent is not called inside a silent() block: C19_silenced_agree) *)
   match o with
   | Ob (OEmit calls r) =>
-      if silenced p then
+      if silenced_all p then
         flag 25 (match calls, r with [], RNone => true | _, _ => false end)
       else
         let exp := map e_func (expected ev snd (registered p)) in
@@ -110,7 +111,7 @@ Definition emit_clauses (p : list hop) (ev snd : Z) (a : payload) (single : opti
            flag 22 (list_eqb func_eqb got exp) ++
            flag 24 (ret_eqb r (RList (map (result_of beh0) calls)))) ++
         flag 23 (forallb (fun x => (c_sender x =? snd) && payload_eqb (c_arg x) a) calls)
-  | _ => if silenced p then [25] else [21]
+  | _ => if silenced_all p then [25] else [21]
   end.
 
 Fixpoint hist_clauses (p : list hop) (h : list hop) (obs : list oobs) : list Z :=
